@@ -29,9 +29,10 @@ EXTENDS Integers, Sequences, FiniteSets, TLC, Json, IOUtils
 Trace == ndJsonDeserialize(IOEnv.TRACE_FILE)
 
 VARIABLES l,   \* next line
-          s    \* the abstract state of the current run (a record)
+          s,   \* the abstract state of the current run (a record)
+          dels \* <<key, bytes delivered>> of the runs that carry a key (same stream, same job count, different Read lengths)
 
-vars == <<l, s>>
+vars == <<l, s, dels>>
 
 Fresh == [mode |-> "clean", total |-> 0, from |-> 0, to |-> 0,
           delivered |-> 0,     \* bytes returned so far
@@ -46,7 +47,10 @@ Fresh == [mode |-> "clean", total |-> 0, from |-> 0, to |-> 0,
           lastGetRead |-> 0,
           bad |-> "none"]      \* first violated predicate of the run
 
-Init == l = 1 /\ s = Fresh
+Init == l = 1 /\ s = Fresh /\ dels = <<>>
+
+KnownKey(k) == \E i \in 1..Len(dels) : dels[i][1] = k
+DelOf(k) == LET i == CHOOSE i \in 1..Len(dels) : dels[i][1] = k IN dels[i][2]
 
 \* first violated predicate wins
 Check(st, cond, name) == IF st.bad = "none" /\ ~cond THEN [st EXCEPT !.bad = name] ELSE st
@@ -132,7 +136,10 @@ Next ==
                 [] e.ev = "D_FIN0"   -> Fin0(e)
                 [] e.ev = "D_FIN1"   -> Fin1(e)
                 [] e.ev = "Hang"     -> Check(s, FALSE, "C07_call_never_returns")
+                \* C06: how much of a damaged / truncated stream the caller receives does not depend on the Read lengths
+                [] e.ev = "Delivered" -> IF KnownKey(e.key) THEN Check(s, DelOf(e.key) = e.n, "C06_delivered_bytes_depend_on_read_lengths") ELSE s
                 [] OTHER             -> s
+    /\ dels' = LET e == Trace[l] IN IF e.ev = "Delivered" /\ ~KnownKey(e.key) THEN Append(dels, <<e.key, e.n>>) ELSE dels
     \* report the first violated predicate of each run (the orchestrator reads these lines)
     /\ (s'.bad # "none" /\ s'.bad # s.bad) => PrintT(<<"VIOLATION_AT", l, s'.bad>>)
 
